@@ -196,8 +196,31 @@ func checkC05(p *Prog, r *Report) {
 	r.rule("C05.B4", "long-lived containers reachable from the entry points have a guard or an eviction at every insertion (acklist flush test, shard-set discard, shard duplicate test, accept backlog test, wrap-safe newest-group update)", 5)
 	r.rule("C05.B5", "no explicit panic is reachable from the entry points except the frozen, justified ones; unchecked type assertions agree with the static type of every value stored into the asserted container", 5)
 	r.rule("C05.B6", "every / and % with a non-constant divisor in the input-path functions has a positive divisor: a dominating fact, or a field whose every store is positive", 4)
+	r.rule("C05.B9", "the reader's copy loop stays inside the caller's buffer: PeekSize (Recv's admission test) and Recv's copy loop both stop at the first segment with frg == 0, so they agree on the message even for forged fragment numbers (= C01.S7)", 2)
+	r.rule("C05.B10", "no datagram is longer than a pooled buffer: every receive buffer of the four read loops is allocated with at most mtuLimit bytes, and every slice of a fresh pool buffer in the input path is cut to the length of received data (or to a bound <= mtuLimit)", 5)
 	r.rule("C05.B8", "the receive-side buffering limits hold for arbitrary (also window-ignoring) input: delivery queue and reorder heap admit only below rcv_wnd / inside the window (C04.W1, C04.W2)", 4)
 	r.rule("C05.B7", "arrays/slices indexed by x % N (or by an index only ever stored as (y+1) % N) are allocated with length N at every store", 4)
+	{
+		key := "delegate:C01:" + r.curCfg
+		sub, _ := p.memo[key].(*Report)
+		if sub == nil {
+			sub = newReport("C01", r.Tier)
+			sub.curCfg = r.curCfg
+			checkC01(p, sub)
+			p.memo[key] = sub
+		}
+		for _, o := range sub.Obs {
+			if o.Rule != "C01.S7" || !(strings.Contains(o.Construct, "stops at frg == 0")) {
+				continue
+			}
+			if o.Status == Discharged {
+				r.ok("C05.B9", o.Func, o.Pos, o.Construct, o.Detail)
+			} else {
+				r.bad("C05.B9", o.Func, o.Pos, o.Construct, o.Detail+": with forged fragment numbers PeekSize and Recv then disagree on the size of the message and Recv's copy loop overruns the caller's buffer (slice bounds panic under the session mutex)", o.Witness)
+			}
+		}
+	}
+	checkReceiveBufferSizes(p, r, inputPathFuncs(p))
 	delegate(p, r, "C04", checkC04, "C04.W1", "C05.B8")
 	delegate(p, r, "C04", checkC04, "C04.W2", "C05.B8")
 
@@ -1045,6 +1068,44 @@ func checkDivisors(p *Prog, r *Report, fns []*FuncInfo) {
 					}
 				}
 			}
+			if !okD {
+				// the divisor is (a conversion of) a parameter of an unexported helper: positive at every call site
+				root := d
+				for root.Op == "conv" {
+					root = root.Args[0]
+				}
+				if root.Op == "var" {
+					if pv, isV := root.Obj.(*types.Var); isV && p.isParam(pv) {
+						idx := -1
+						for i := 0; ; i++ {
+							o := fi.paramObj(p, i)
+							if o == nil {
+								break
+							}
+							if o == pv {
+								idx = i
+							}
+						}
+						if idx >= 0 {
+							okD = p.holdsAtAllCallers(fi, 2, func(cfs *FactSet, caller *FuncInfo, call *ast.CallExpr) bool {
+								if idx >= len(call.Args) {
+									return false
+								}
+								at := p.Term(call.Args[idx])
+								if p.positiveTerm(cfs, at, 0) {
+									return true
+								}
+								for _, a := range cfs.resolvedAtoms() {
+									if (a.Op == "<=" || a.Op == "<") && a.Args[1].Key() == at.Key() && p.positiveTerm(cfs, a.Args[0], 0) {
+										return true
+									}
+								}
+								return false
+							})
+						}
+					}
+				}
+			}
 			r.check(okD, "C05.B6", fi.Name, p.Pos(be), construct, "divisor is positive on every path (fact or field invariant)", "the divisor "+exprString(be.Y)+" is not provably non-zero on every path: a crafted packet or configuration can make the division panic")
 			return true
 		})
@@ -1453,4 +1514,71 @@ func (p *Prog) isOldLenBeforeExtension(fi *FuncInfo, bound ast.Expr, base ast.Ex
 		return true
 	})
 	return okExt && !bad
+}
+
+// checkReceiveBufferSizes: C05.B10.
+func checkReceiveBufferSizes(p *Prog, r *Report, fns []*FuncInfo) {
+	limit := p.ConstInt("mtuLimit")
+	n := 0
+	for _, name := range []string{"(*UDPSession).defaultReadLoop", "(*UDPSession).readLoop", "(*Listener).defaultMonitor", "(*Listener).monitor"} {
+		fi := p.FuncByName(name)
+		if fi == nil {
+			continue // not in this build configuration
+		}
+		inspectBody(fi, func(x ast.Node) bool {
+			call, ok := x.(*ast.CallExpr)
+			if !ok || p.BuiltinName(call) != "make" || len(call.Args) < 2 {
+				return true
+			}
+			if sl, ok := p.Info.TypeOf(call.Args[0]).Underlying().(*types.Slice); !ok || !types.Identical(sl.Elem(), types.Typ[types.Byte]) {
+				return true
+			}
+			n++
+			v, isC := p.constVal(call.Args[1])
+			r.check(isC && v <= limit, "C05.B10", fi.Name, p.Pos(call), "receive buffer "+exprString(call), fmt.Sprintf("at most mtuLimit = %d bytes", limit), fmt.Sprintf("the receive loop reads datagrams of up to %s bytes, longer than a pooled buffer (%d): the FEC decoder and the core copy received data into pool buffers cut to the datagram's length (slice bounds panic on one oversized datagram, before any authentication)", exprString(call.Args[1]), limit))
+			return true
+		})
+	}
+	if n == 0 {
+		r.bad("C05.B10", "read loops", "-", "receive buffers", "no receive buffer allocation found in the read loops", "")
+	}
+	// slices of fresh pool buffers in the input path
+	get := p.Method("bufferPool", "Get")
+	for _, fi := range fns {
+		fa := p.FactsOf(rootFuncInfo(fi))
+		inspectBody(fi, func(x ast.Node) bool {
+			se, ok := x.(*ast.SliceExpr)
+			if !ok || se.High == nil {
+				return true
+			}
+			call, ok := ast.Unparen(se.X).(*ast.CallExpr)
+			if !ok || p.Callee(call) != get {
+				return true
+			}
+			fs := fa.AtNode(se)
+			h := p.Term(se.High)
+			ok = fs.Holds(le(h, tConst(limit)))
+			why := ""
+			if !ok {
+				// the length of received bytes: len(x) with x a parameter (or a field of one) of an input-path function
+				rh := fs.Resolve(h)
+				if rh.Op == "len" {
+					root := rh.Args[0]
+					for root.Op == "fld" || root.Op == "slice" || root.Op == "conv" {
+						root = root.Args[0]
+					}
+					if root.Op == "var" {
+						if v, isV := root.Obj.(*types.Var); isV && p.isParam(v) {
+							ok = true
+							why = "length of received data (bounded by the receive buffers)"
+						}
+					}
+				}
+			} else {
+				why = "bounded by mtuLimit"
+			}
+			r.check(ok, "C05.B10", fi.Name, p.Pos(se), "pool buffer cut "+exprString(se), why, "a fresh pool buffer is cut to "+exprString(se.High)+", which is neither bounded by mtuLimit nor the length of received data")
+			return true
+		})
+	}
 }
